@@ -18,6 +18,7 @@ TRUSTED_BASE = [
     "Slinkyv.Ld2 (lean/Slinkyv/Ld2.lean): placement order (`takes`, tied to Ld.exec by the theorem C11.exec_takes) and the two-step link of partial mode (`relink`, `twoStep`): that an output section of `ld -r` becomes one section of the partial object holding its contents in placement order, that empty ones are absent and that the final link moves such a section as one block is validated against real two-step links on every linked C11 case (twostep_model_fidelity), not proved",
     "tools/extract_tables.py: a regex-based translator of three table-like parts of the source (settings defaults, naming format strings, serde field lists) into lean/Src/Tables.lean, regenerated on every run; Props/C05Src, C08Src, C16Src prove the model's tables equal to it; the translator is trusted to read those constructs faithfully (an unknown construct yields ill-typed Lean, i.e. a broken obligation, not a silent pass)",
     "tools/extract_formats.py: a tokenizer-based translator of every string literal of every function of script_buffer.rs, linker_writer.rs and partial_linker_writer.rs (read as Rust format templates) and of the version constants into lean/Src/Formats.lean, regenerated on every run; Props/C01Src, C03Src, C04Src, C05Fmt, C08Fmt, C09Src, C10Src, C11Src, C12Src, C13Src, C17Src, C18Src, C20Src prove that the text the model prints for each statement kind is `format!` (Slinkyv.Fmt.fmt: `{}`, `{:X}`, `{:08X}`) of the template the code has now, and that each function has the number of literals the model was written against; which template is used where is the model's claim and is validated by the correspondence run",
+    "tools/extract_logic.py: a recursive-descent translator of the body of RuntimeSettings::should_emit_entry (if-without-else, return, let mut, assignment, !, &&, ||, is_empty, iter().any/all with the one closure the code uses) and of the match arms of FileKind::from_path into lean/Src/Logic.lean, regenerated on every run; Props/C06Src.shouldEmit_src and Props/C16Logic.kindFromPath_src prove the model's functions equal to the translations for all inputs",
     "not modelled: serde_yaml's scanner (bytes -> tree), clap, std::fs beyond create-parents/truncate/write",
     "the harness (harness/src/main.rs), ./check (python) and the Lean script parser are ordinary programs",
 ]
@@ -51,7 +52,8 @@ def regen_tables():
     (tools/extract_tables.py); Props/C05Src, C08Src, C16Src are then re-checked against it by the proof audit"""
     rc, out, err = sh([sys.executable, os.path.join(VERIF, "tools", "extract_tables.py"), "/repo", os.path.join(LEAN, "Src", "Tables.lean")])
     rc2, out2, err2 = sh([sys.executable, os.path.join(VERIF, "tools", "extract_formats.py"), "/repo", os.path.join(LEAN, "Src", "Formats.lean")])
-    return rc == 0 and rc2 == 0, (out + err + out2 + err2).strip()
+    rc3, out3, err3 = sh([sys.executable, os.path.join(VERIF, "tools", "extract_logic.py"), "/repo", os.path.join(LEAN, "Src", "Logic.lean")])
+    return rc == 0 and rc2 == 0 and rc3 == 0, (out + err + out2 + err2 + out3 + err3).strip()
 
 
 def build_lean(targets):
